@@ -22,7 +22,7 @@ def ref_parser(ctx, cfg):
 
 
 def layout(cfg):
-    return R.Layout(cfg["align"], PTR_BYTES[cfg.get("pointer", "uint64")])
+    return R.Layout(cfg["align"], PTR_BYTES[cfg.get("pointer", "uint64")], CONSTS)
 
 
 def min_size(T, cfg):
